@@ -205,7 +205,7 @@ where
       pure (predict .fm a r)
     | _ => none
 
-def handle (toks : List String) : String :=
+def handleDev (toks : List String) : String :=
   let r : Option String :=
     match toks with
     | ["strerror", n] => do
@@ -245,5 +245,18 @@ def handle (toks : List String) : String :=
       handleFm rest
     | _ => none
   r.getD "bad-op"
+
+/-- `rel <op>`: the same call through the release build of the library.  The layer is the
+same code, so is the prediction — except where the (dev-profile) reference panics: without
+overflow checks and debug assertions the release library need not panic there, and all the
+property requires is that the call comes back (`survived`). -/
+def handle (toks : List String) : String :=
+  match toks with
+  | "rel" :: rest =>
+    let r := handleDev rest
+    if r == "bad-op" then r
+    else if rest.drop (rest.length - 2) == ["R", "panic"] then "survived"
+    else r
+  | _ => handleDev toks
 
 end Coupe.Driver.C17
